@@ -113,7 +113,11 @@ func withComment(c Case, text, lead string) string {
 	if at > len(lines) {
 		at = len(lines)
 	}
-	return strings.Join(lines[:at], "") + b.String() + strings.Join(lines[at:], "")
+	head := strings.Join(lines[:at], "")
+	if head != "" && !strings.HasSuffix(head, "\n") {
+		head += "\n" // a text without a final newline: the comment still goes on a line of its own
+	}
+	return head + b.String() + strings.Join(lines[at:], "")
 }
 
 func fileText(c Case) (string, string) {
